@@ -1339,9 +1339,10 @@ def check_access(ctx, cr, s):
                    "`%s%s` %s for access `%s`" % (pre, fname, "missing" if want_set else "must not exist", f["access"] or "none"))
     # builder steps follow the same specifier: a step for every writable field and for no other
     padt = cr["_adt"].get(partial_path(s))
-    if padt is not None and "builder" in names:
+    if (padt is not None and "builder" in names) or builder_expected(s):
+        # (when the layout calls for a builder and none is offered, every writable field has lost its step)
         pnames = set()
-        for im in padt["impls"]:
+        for im in (padt["impls"] if padt is not None and "builder" in names else []):
             for it in im["items"]:
                 if it["kind"] == "fn" and it.get("pub"):
                     pnames.add(it["name"])
@@ -1933,6 +1934,15 @@ def analyse_positive(ctx, want_props):
                 if p != {"C18"} and d["kind"] == "struct" and d.get("default") is not None and d.get("family") == "MISC" and d["name"].startswith(("DbgFirst", "Lit")):
                     # these witnesses exist for the ways a default can be *written* (argument order, literal forms)
                     p2.add("C06")
+                if p != {"C18"} and d["kind"] == "struct" and d.get("family") == "MISC" and d["name"].startswith(("Unit", "Empty")):
+                    # field-less types written in every form: what remains of such a type is exactly C06's subject
+                    p2.add("C06")
+                if p != {"C18"} and d.get("mod") == "misc_corectx":
+                    # these witnesses sit next to a user item called `core`: failing there means the expansion names
+                    # something that is not ::core (C18); for a `debug` struct it is the Debug impl that is lost (C19)
+                    p2.add("C18")
+                    if d.get("debug"):
+                        p2.add("C19")
                 if p != {"C18"} and d["kind"] == "struct" and d.get("debug") and any("debug" in x.get("message", "").lower() for x in mine):
                     # the `debug` option itself is what fails: there is no {:?} output for this (rule-valid) declaration
                     p2.add("C19")
